@@ -95,7 +95,7 @@ EditStmt ==
 NScal(p) == 4 + Len(p.msgs) - Cardinality(p.D)      \* e^, r1^, r3^, m^_1..U, c
 DoTamper == /\ pc = "check" /\ last.op = "ProofGen"
             /\ LET p == objs[PH] IN
-               \/ \E f \in {101, 102, 103} : Step(Tamper(PH, {f}, 0))
+               \/ \E f \in {101, 102, 103, 201, 202, 203} : Step(Tamper(PH, {f}, 0))
                \/ \E j \in 1 .. NScal(p) : Step(Tamper(PH, {j}, 0))
                \/ \E d \in {-1, 1} : Step(Tamper(PH, {}, d))
             /\ pc' = "tampered"
